@@ -298,7 +298,10 @@ Theorem c02_debug_id_spec :
   (forall e off s age f, read_debug_id e (CvPdb20 off s age f) = DbgPdb20 s age) /\
   (forall e bid, all_zero bid = true -> read_debug_id e (CvElf bid) = DbgNone) /\
   (forall bid, all_zero bid = false -> all_in 1 bid = true ->
-     read_debug_id BE (CvElf bid) = DbgUuid (firstn 16 (bid ++ repeat 0 16)) 0).
+     read_debug_id BE (CvElf bid) = DbgUuid (firstn 16 (bid ++ repeat 0 16)) 0) /\
+  (forall bid g0 g1 g2 g3 g4 g5 g6 g7 tl, all_zero bid = false -> all_in 1 bid = true ->
+     firstn 16 (bid ++ repeat 0 16) = g0 :: g1 :: g2 :: g3 :: g4 :: g5 :: g6 :: g7 :: tl ->
+     read_debug_id LE (CvElf bid) = DbgUuid (g3 :: g2 :: g1 :: g0 :: g5 :: g4 :: g7 :: g6 :: tl) 0).
 Proof. exact debug_id_spec. Qed.
 Print Assumptions c02_debug_id_spec.
 Theorem c02_code_id_lower_hex : forall os time size c id, 0 <= size ->
